@@ -119,6 +119,80 @@ def run(eng, R):
     R.rule("G3d", "the pending list is emptied on every normal exit that processed entries; entries are sorted before the single pass", 2)
     R.rule("G3e", "the filler starts in the underflow bin with upper edge = low and walks bins one by one taking edges from _bin_edges[index]", 3)
 
+    _filler(eng, R, H, f, g, p)
+
+    # ------------------------------------------------------------------ G4: rebin / fill / raw_data / n_entries
+    R.rule("G4", "rebin zeroes the counts, re-queues all processed entries before clearing them; fill queues every entry; raw_data = processed + pending", 5)
+    rb = p.method(H, "rebin")
+    grb = eng.cfg(rb)
+
+    def requeue(n):
+        st = n.stmt
+        if n.kind == "stmt" and isinstance(st, ast.AugAssign) and isinstance(st.op, ast.Add) and self_attr(st.target) == "_unprocessed_entries" and self_attr(st.value) == "_processed_entries":
+            return True
+        if n.kind == "stmt" and isinstance(st, ast.Assign) and any(self_attr(t) == "_unprocessed_entries" for t in st.targets):
+            txt = ast.unparse(st.value)
+            return "self._processed_entries" in txt and "self._unprocessed_entries" in txt and isinstance(st.value, ast.BinOp) and isinstance(st.value.op, ast.Add)
+        for c in eng.calls_in_parts(n.ast_parts()):
+            if isinstance(c.func, ast.Attribute) and c.func.attr == "extend" and self_attr(c.func.value) == "_unprocessed_entries" and c.args and self_attr(c.args[0]) == "_processed_entries":
+                return True
+        return False
+
+    def clears_processed(n):
+        st = n.stmt
+        return n.kind == "stmt" and isinstance(st, ast.Assign) and any(self_attr(t) == "_processed_entries" for t in st.targets)
+
+    def zero_counts(n):
+        st = n.stmt
+        return n.kind == "stmt" and isinstance(st, ast.Assign) and any(self_attr(t) == "_data" for t in st.targets) and isinstance(st.value, ast.Call) and common.call_name(st.value) == "zeros"
+
+    clr = [n for n in grb.stmt_nodes() if clears_processed(n)]
+    rq_ok = bool(clr)
+    for n in clr:
+        ok, _ = grb.dominated_by(n.id, requeue)
+        rq_ok = rq_ok and ok
+    ok_all, wit = grb.all_paths_pass(grb.entry.id, requeue)
+    R.ob("G4", "rebin:requeue", rq_ok and ok_all, eng.where(rb), "rebin does not re-queue all processed entries before clearing them (previously filled entries are lost)")
+    ok_z, _ = grb.all_paths_pass(grb.entry.id, zero_counts)
+    R.ob("G4", "rebin:zero", ok_z, eng.where(rb), "rebin does not reset the counts to zeros (re-queued entries would be counted twice)")
+    zs = [n.stmt for n in grb.stmt_nodes() if zero_counts(n)]
+    sz_ok = bool(zs) and all(_norm_len(ast.unparse(z.value.args[0])) in ("len(self._bin_edges)+1", "len(_new_bin_edges)+1") for z in zs)
+    R.ob("G4", "rebin:size", sz_ok, eng.where(rb), "rebin allocates %s counts, expected len(edges)-1 bins + underflow + overflow" % [ast.unparse(z.value.args[0]) for z in zs])
+    fl = p.method(H, "fill")
+    q_ok = False
+    for n in ast.walk(fl.node):
+        if isinstance(n, ast.AugAssign) and self_attr(n.target) == "_unprocessed_entries" and isinstance(n.op, ast.Add):
+            v = n.value
+            if isinstance(v, ast.Call) and common.call_name(v) == "list" and v.args and isinstance(v.args[0], ast.Name) and v.args[0].id == "entries":
+                q_ok = True
+        if isinstance(n, ast.Call) and isinstance(n.func, ast.Attribute) and n.func.attr == "extend" and self_attr(n.func.value) == "_unprocessed_entries" and n.args and isinstance(n.args[0], ast.Name) and n.args[0].id == "entries":
+            q_ok = True
+    R.ob("G4", "fill:queue", q_ok, eng.where(fl), "fill does not queue all given entries")
+    raw = H.find_prop("raw_data").fget
+    txt = [ast.unparse(r.value) for r in ast.walk(raw.node) if isinstance(r, ast.Return) and r.value is not None]
+    R.ob("G4", "raw_data", bool(txt) and all("_processed_entries" in t and "_unprocessed_entries" in t for t in txt), eng.where(raw), "raw_data must list processed and pending entries")
+    ne = H.find_prop("n_entries").fget
+    txt = [ast.unparse(r.value) for r in ast.walk(ne.node) if isinstance(r, ast.Return) and r.value is not None]
+    R.ob("G4", "n_entries", bool(txt) and all("sum(self._data)" in t.replace("np.", "") and "len(self._unprocessed_entries)" in t for t in txt), eng.where(ne),
+         "n_entries must be sum of all counts (incl. under/overflow) + number of pending entries, got %s" % txt)
+
+
+def _norm_len(s):
+    s = s.replace(" ", "")
+    for a, b in (("-1+2", "+1"), ("+2-1", "+1"), ("+1", "+1")):
+        if s.endswith(a):
+            return s[: -len(a)] + b
+    return s
+
+
+def _inside(outer, inner):
+    for n in ast.walk(outer):
+        if n is inner:
+            return True
+    return False
+
+
+def _filler(eng, R, H, f, g, p):
     # roles by def-use: entry-value variables derive from the sorted array; edge variables from self.low / _bin_edges[...] ; cursor/bin index ints
     really_sorted = set()
     really_sorted = set()
@@ -141,10 +215,15 @@ def run(eng, R):
             if isinstance(v, ast.Subscript) and self_attr(v.value) == "_bin_edges" and isinstance(v.slice, ast.Name):
                 edge_upper_vars.add(t)
                 bin_vars.add(v.slice.id)
-    R.ob("G3d", "_fill_unprocessed:sorted", bool(sorted_vars) and bool(entry_vars) and sorted_vars <= really_sorted, eng.where(f), "entries are not sorted before the single pass over the bins")
     if not (sorted_vars and entry_vars and edge_upper_vars and cursor_vars and bin_vars):
+        if _vectorised_fill(eng, R, H, f):
+            # the single-pass rules G3a-e do not apply to this implementation (their floors are dropped, G5 carries its own)
+            for r in ("G3a", "G3b", "G3c", "G3d", "G3e"):
+                R.floors[r] = 0
+            return
         raise AnalysisError("HistContainer._fill_unprocessed: single-pass idiom not recognised (sorted=%s entry=%s edges=%s cursor=%s bin=%s)" % (
             sorted_vars, entry_vars, edge_upper_vars, cursor_vars, bin_vars))
+    R.ob("G3d", "_fill_unprocessed:sorted", bool(sorted_vars) and bool(entry_vars) and sorted_vars <= really_sorted, eng.where(f), "entries are not sorted before the single pass over the bins")
     # edge variable that is *compared* with the entry value is the upper edge
     cmps = []
     for n in ast.walk(f.node):
@@ -289,72 +368,60 @@ def run(eng, R):
     ok, wit = g.all_paths_pass(head.id, clears_pending)
     R.ob("G3d", "_fill_unprocessed:clear-pending", ok, eng.where(f), "pending entries are not cleared after processing (they would be counted again on the next read): %s" % path_text(f, wit or []))
 
-    # ------------------------------------------------------------------ G4: rebin / fill / raw_data / n_entries
-    R.rule("G4", "rebin zeroes the counts, re-queues all processed entries before clearing them; fill queues every entry; raw_data = processed + pending", 5)
-    rb = p.method(H, "rebin")
-    grb = eng.cfg(rb)
 
-    def requeue(n):
-        st = n.stmt
-        if n.kind == "stmt" and isinstance(st, ast.AugAssign) and isinstance(st.op, ast.Add) and self_attr(st.target) == "_unprocessed_entries" and self_attr(st.value) == "_processed_entries":
+def _vectorised_fill(eng, R, H, f):
+    """Alternative implementation of the filler: bin indices looked up for all entries at once. Decides the half-open placement from the look-up calls:
+    every index must come from a comparison with the stored edges - np.searchsorted(edges, entries, side='right') or np.digitize(entries, edges) -, never from
+    arithmetic on (entry - low) / width. Returns False if no look-up call is found at all (not this implementation either)."""
+    funcs = [f]
+    for c in ast.walk(f.node):
+        if isinstance(c, ast.Call) and isinstance(c.func, ast.Attribute) and isinstance(c.func.value, ast.Name) and c.func.value.id == "self":
+            m = H.find_method(c.func.attr)
+            if m is not None and m is not f and any(isinstance(x, ast.Call) and common.call_name(x) in ("searchsorted", "digitize", "floor", "bincount", "histogram") for x in ast.walk(m.node)):
+                funcs.append(m)
+    lookups = [(fn, c) for fn in funcs for c in ast.walk(fn.node) if isinstance(c, ast.Call) and common.call_name(c) in ("searchsorted", "digitize")]
+    if not lookups:
+        return False
+    R.rule("G5", "vectorised filler: every bin index comes from a comparison with the stored edges (searchsorted(edges, entries, side='right') / digitize(entries, edges)); "
+                 "no index is computed arithmetically; counts are added with bincount over the whole store; all entries are recorded as processed", 3)
+
+    def edges_expr(e, fn):
+        t = " ".join(ast.unparse(e).split())
+        if t == "self._bin_edges":
             return True
-        if n.kind == "stmt" and isinstance(st, ast.Assign) and any(self_attr(t) == "_unprocessed_entries" for t in st.targets):
-            txt = ast.unparse(st.value)
-            return "self._processed_entries" in txt and "self._unprocessed_entries" in txt and isinstance(st.value, ast.BinOp) and isinstance(st.value.op, ast.Add)
-        for c in eng.calls_in_parts(n.ast_parts()):
-            if isinstance(c.func, ast.Attribute) and c.func.attr == "extend" and self_attr(c.func.value) == "_unprocessed_entries" and c.args and self_attr(c.args[0]) == "_processed_entries":
-                return True
+        if isinstance(e, ast.Name):
+            defs = [a for a in ast.walk(fn.node) if isinstance(a, ast.Assign) and isinstance(a.targets[0], ast.Name) and a.targets[0].id == e.id]
+            return bool(defs) and all(" ".join(ast.unparse(a.value).split()) == "self._bin_edges" for a in defs)
         return False
 
-    def clears_processed(n):
-        st = n.stmt
-        return n.kind == "stmt" and isinstance(st, ast.Assign) and any(self_attr(t) == "_processed_entries" for t in st.targets)
-
-    def zero_counts(n):
-        st = n.stmt
-        return n.kind == "stmt" and isinstance(st, ast.Assign) and any(self_attr(t) == "_data" for t in st.targets) and isinstance(st.value, ast.Call) and common.call_name(st.value) == "zeros"
-
-    clr = [n for n in grb.stmt_nodes() if clears_processed(n)]
-    rq_ok = bool(clr)
-    for n in clr:
-        ok, _ = grb.dominated_by(n.id, requeue)
-        rq_ok = rq_ok and ok
-    ok_all, wit = grb.all_paths_pass(grb.entry.id, requeue)
-    R.ob("G4", "rebin:requeue", rq_ok and ok_all, eng.where(rb), "rebin does not re-queue all processed entries before clearing them (previously filled entries are lost)")
-    ok_z, _ = grb.all_paths_pass(grb.entry.id, zero_counts)
-    R.ob("G4", "rebin:zero", ok_z, eng.where(rb), "rebin does not reset the counts to zeros (re-queued entries would be counted twice)")
-    zs = [n.stmt for n in grb.stmt_nodes() if zero_counts(n)]
-    sz_ok = bool(zs) and all(_norm_len(ast.unparse(z.value.args[0])) in ("len(self._bin_edges)+1", "len(_new_bin_edges)+1") for z in zs)
-    R.ob("G4", "rebin:size", sz_ok, eng.where(rb), "rebin allocates %s counts, expected len(edges)-1 bins + underflow + overflow" % [ast.unparse(z.value.args[0]) for z in zs])
-    fl = p.method(H, "fill")
-    q_ok = False
-    for n in ast.walk(fl.node):
-        if isinstance(n, ast.AugAssign) and self_attr(n.target) == "_unprocessed_entries" and isinstance(n.op, ast.Add):
-            v = n.value
-            if isinstance(v, ast.Call) and common.call_name(v) == "list" and v.args and isinstance(v.args[0], ast.Name) and v.args[0].id == "entries":
-                q_ok = True
-        if isinstance(n, ast.Call) and isinstance(n.func, ast.Attribute) and n.func.attr == "extend" and self_attr(n.func.value) == "_unprocessed_entries" and n.args and isinstance(n.args[0], ast.Name) and n.args[0].id == "entries":
-            q_ok = True
-    R.ob("G4", "fill:queue", q_ok, eng.where(fl), "fill does not queue all given entries")
-    raw = H.find_prop("raw_data").fget
-    txt = [ast.unparse(r.value) for r in ast.walk(raw.node) if isinstance(r, ast.Return) and r.value is not None]
-    R.ob("G4", "raw_data", bool(txt) and all("_processed_entries" in t and "_unprocessed_entries" in t for t in txt), eng.where(raw), "raw_data must list processed and pending entries")
-    ne = H.find_prop("n_entries").fget
-    txt = [ast.unparse(r.value) for r in ast.walk(ne.node) if isinstance(r, ast.Return) and r.value is not None]
-    R.ob("G4", "n_entries", bool(txt) and all("sum(self._data)" in t.replace("np.", "") and "len(self._unprocessed_entries)" in t for t in txt), eng.where(ne),
-         "n_entries must be sum of all counts (incl. under/overflow) + number of pending entries, got %s" % txt)
-
-
-def _norm_len(s):
-    s = s.replace(" ", "")
-    for a, b in (("-1+2", "+1"), ("+2-1", "+1"), ("+1", "+1")):
-        if s.endswith(a):
-            return s[: -len(a)] + b
-    return s
-
-
-def _inside(outer, inner):
-    for n in ast.walk(outer):
-        if n is inner:
-            return True
-    return False
+    for fn, c in lookups:
+        kw = {k.arg: k.value for k in c.keywords}
+        if common.call_name(c) == "searchsorted":
+            ok = len(c.args) >= 2 and edges_expr(c.args[0], fn) and isinstance(kw.get("side"), ast.Constant) and kw["side"].value == "right"
+        else:
+            ok = len(c.args) >= 2 and edges_expr(c.args[1], fn) and not (isinstance(kw.get("right"), ast.Constant) and kw["right"].value)
+        R.ob("G5", "%s:%s" % (fn.qualname, common.call_name(c)), ok, (fn.file, c.lineno),
+             "the look-up must be over the stored edges with the value on an edge going to the upper bin (side='right'): found %s" % " ".join(ast.unparse(c).split())[:100])
+    # index-producing helpers: every return is a look-up, none is arithmetic
+    for fn in funcs[1:]:
+        for r in ast.walk(fn.node):
+            if isinstance(r, ast.Return) and r.value is not None:
+                is_lookup = isinstance(r.value, ast.Call) and common.call_name(r.value) in ("searchsorted", "digitize")
+                arith = [common.call_name(x) for x in ast.walk(r.value) if isinstance(x, ast.Call) and common.call_name(x) in ("floor", "ceil", "astype", "trunc", "rint", "clip", "int")] \
+                    + [type(x.op).__name__ for x in ast.walk(r.value) if isinstance(x, ast.BinOp) and isinstance(x.op, (ast.Div, ast.FloorDiv))]
+                names = [x.id for x in ast.walk(r.value) if isinstance(x, ast.Name)]
+                for nm in names:
+                    for a in ast.walk(fn.node):
+                        if isinstance(a, ast.Assign) and isinstance(a.targets[0], ast.Name) and a.targets[0].id == nm:
+                            arith += [common.call_name(x) for x in ast.walk(a.value) if isinstance(x, ast.Call) and common.call_name(x) in ("floor", "ceil", "trunc", "rint")]
+                            arith += [type(x.op).__name__ for x in ast.walk(a.value) if isinstance(x, ast.BinOp) and isinstance(x.op, (ast.Div, ast.FloorDiv))]
+                R.ob("G5", "%s:return@%d" % (fn.qualname, len([1 for _ in ()])), is_lookup and not arith, (fn.file, r.lineno),
+                     "%s returns bin indices computed arithmetically (%s): the quotient (x - low) / width rounds differently from the comparison with the stored edges, an entry on "
+                     "an edge (and the last edge) can land in the lower bin" % (fn.qualname, sorted(set(arith)) or "not a look-up"))
+    src = common.src_of(f.node)
+    ok = any(isinstance(a, ast.AugAssign) and isinstance(a.op, ast.Add) and self_attr(a.target) == "_data" and "bincount" in ast.unparse(a.value) and "minlength=len(self._data)" in " ".join(ast.unparse(a.value).split())
+             for a in ast.walk(f.node))
+    R.ob("G5", "_fill_unprocessed:counts", ok, eng.where(f), "counts must be added to the whole store (underflow, bins, overflow) with bincount(indices, minlength=len(self._data))")
+    ok = any(isinstance(a, ast.AugAssign) and self_attr(a.target) == "_processed_entries" for a in ast.walk(f.node)) and "self._unprocessed_entries = []" in src
+    R.ob("G5", "_fill_unprocessed:bookkeeping", ok, eng.where(f), "all entries must be recorded as processed and the pending list emptied")
+    return True
